@@ -40,18 +40,19 @@ type Options struct {
 }
 
 type World struct {
-	Prog    *ssa.Program
-	Initial []*packages.Package
-	Main    *ssa.Package
-	Sizes   types.Sizes
-	target  map[*ssa.Package]bool
-	extMu   sync.RWMutex
-	extMemo map[*ssa.Function]externalFn
-	extNone map[*ssa.Function]bool
-	rtErr   types.Type
-	osArgs  *ssa.Global
-	LoadS   float64
-	models  map[string]*ssa.Function // std function name -> interpreted model in the harness package
+	Prog      *ssa.Program
+	Initial   []*packages.Package
+	Main      *ssa.Package
+	Sizes     types.Sizes
+	target    map[*ssa.Package]bool
+	extMu     sync.RWMutex
+	extMemo   map[*ssa.Function]externalFn
+	extNone   map[*ssa.Function]bool
+	rtErr     types.Type
+	osArgs    *ssa.Global
+	LoadS     float64
+	models    map[string]*ssa.Function // std function name -> interpreted model in the harness package
+	overrides map[string]*ssa.Function // target function name -> verifOverride_<name> of the harness package
 }
 
 // Load builds the SSA program for the package in dir with the given overlay.
@@ -105,9 +106,13 @@ func Load(dir string, overlay map[string][]byte, buildFlags []string, patterns [
 	if op := prog.ImportedPackage("os"); op != nil {
 		w.osArgs, _ = op.Members["Args"].(*ssa.Global)
 	}
+	w.overrides = map[string]*ssa.Function{}
 	for name, m := range w.Main.Members {
 		if f, ok := m.(*ssa.Function); ok && strings.HasPrefix(name, "verifModel_") {
 			w.models[name] = f
+		}
+		if f, ok := m.(*ssa.Function); ok && strings.HasPrefix(name, "verifOverride_") {
+			w.overrides[strings.TrimPrefix(name, "verifOverride_")] = f
 		}
 	}
 	w.LoadS = time.Since(t0).Seconds()
